@@ -13,6 +13,7 @@ import (
 	"github.com/polydawn/rio/fs/osfs"
 	"github.com/polydawn/rio/fsOp"
 	"github.com/polydawn/rio/lib/guid"
+	"github.com/polydawn/rio/lib/verifhook"
 	"github.com/polydawn/rio/stitch/placer"
 	"github.com/polydawn/rio/transmat/mixins/log"
 )
@@ -60,6 +61,7 @@ func (c cache) Unpack(
 	//  (This must be first because we're willing to read cache even in "direct" mode, but
 	//  yet *not* willing to even initialize empty cache dirs in that mode.)
 	shelf := ShelfFor(resultWareID)
+	verifhook.Point("cache.lookup", shelf.String())
 	_, err = c.fs.Stat(shelf)
 	switch Category(err) {
 	case fs.ErrNotExists: // "not exists" is just a cache miss...
@@ -98,6 +100,7 @@ func (c cache) place(
 	destination string, // still a string at this phase because it's either abs or "-"
 ) error {
 	absShelf := c.fs.BasePath().Join(shelf)
+	verifhook.Point("cache.place", string(placementMode), absShelf.String(), destination)
 	switch placementMode {
 	case rio.Placement_None: // If no placement, cache having it is victory!
 		return nil
@@ -144,6 +147,7 @@ func (c cache) populate(
 	// Defer cleanup of the temp path.
 	//  (If we're successful, we'll have moved it out of this path before return.)
 	defer os.RemoveAll(tmpPathStr)
+	verifhook.Point("cache.populate.tmp", tmpPathStr)
 	// Delegate!
 	resultWareID, err := c.unpackTool(ctx, wareID, tmpPathStr, filt, rio.Placement_Direct, warehouses, monitor)
 	if err != nil {
@@ -155,8 +159,10 @@ func (c cache) populate(
 	//  In case of race: accept our fate, assume the racing party acted in good faith,
 	//  return the shelf path anyway, and our defer'd rm will act on our wasted copy.
 	shelf := ShelfFor(resultWareID)
+	verifhook.Point("cache.populate.unpacked", tmpPathStr, shelf.String())
 	c.fs.Mkdir(shelf.Dir().Dir(), 0755)
 	c.fs.Mkdir(shelf.Dir(), 0755)
+	verifhook.Point("cache.populate.rename", tmpPathStr, shelf.String())
 	if err := os.Rename(tmpPathStr, c.fs.BasePath().Join(shelf).String()); err != nil {
 		if _, ok := err.(*os.LinkError); ok && os.IsExist(err) {
 			// Oh, fine.  Somebody raced us to it.
@@ -165,5 +171,6 @@ func (c cache) populate(
 		// Any other error: sad.
 		return resultWareID, shelf, Errorf(rio.ErrLocalCacheProblem, "error commiting %q into cache: %s", resultWareID, err)
 	}
+	verifhook.Point("cache.populate.renamed", shelf.String())
 	return resultWareID, shelf, nil
 }
